@@ -68,6 +68,17 @@ CONSTS_CLEAN = ['abc', '42', 'a b', 'True', '1.5', 'None', 'x_1', "a'b", 'a"b', 
 CONSTS_RISKY = ['a`b', 'a\nb', '`', ' x ', 'a```b', '\n']
 
 NAMES = ['n', 'val', 'left', 'op', 'x1', 'name_']
+
+# the "wide" family: literals / names long enough that the printers leave their one-line branches (a Sequence wraps
+# past 72 columns, a Choice past 0.6 * 72, every box around a wrapped body switches to its multi-line form)
+TOKENS_WIDE = ['begin', 'end_of_block', 'otherwise', 'function', 'procedure', 'return', '<<=', '>>>=', '::=', '...',
+               'not in', 'is not', 'implements', 'synchronized', '-->', 'where']
+PATTERNS_WIDE = [
+    (r'[A-Za-z_][A-Za-z_0-9]*', ['ident_1', 'Zq']), (r'[0-9]+(?:\.[0-9]+)?', ['3.25', '17']),
+    (r'0[xX][0-9a-fA-F]+', ['0x1F', '0Xa']), (r'--[a-z]+(?:-[a-z]+)*', ['--dry-run', '--x']),
+    (r'[+-]?[0-9]+[eE][0-9]+', ['1e9', '-2E10']), (r'"[^"\n]*"', ['"str"', '""']),
+]
+NAMES_WIDE = ['left_operand', 'right_operand', 'operator_', 'argument_list', 'identifier', 'default_value', 'flag']
 META = ['name', 'int', 'uint', 'float', 'bool']
 META_SAMPLE = {'name': ['foo', 'x9'], 'int': ['-12', '3'], 'uint': ['7', '10'], 'float': ['1.5', '-0.25'],
                'bool': ['true', 'false']}
@@ -118,10 +129,11 @@ def nullable(e, rules) -> bool:
 
 
 class Gen:
-    def __init__(self, rng, risky: bool, prog: bool):
+    def __init__(self, rng, risky: bool, prog: bool, wide: bool = False):
         self.rng = rng
         self.risky = risky      # may draw from the pools that hit the recorded defects
         self.prog = prog        # may use shapes that only a programmatically built model can have
+        self.wide = wide        # long literals / names, long sequences and choices: the printers' multi-line branches
         self.rules: dict = {}
         self.incl_ok = True
 
@@ -134,6 +146,12 @@ class Gen:
         r = self.rng
         x = r.random()
         incl = later if self.incl_ok else []
+        if self.wide and r.random() < 0.5:
+            if x < 0.55:
+                return ('tok', r.choice(TOKENS_WIDE))
+            if x < 0.85 or not later:
+                return ('pat', r.choice(PATTERNS_WIDE)[0])
+            return ('call', r.choice(later))
         if x < 0.30:
             return ('tok', self.pick(TOKENS_CLEAN, TOKENS_RISKY))
         if x < 0.45:
@@ -218,21 +236,22 @@ class Gen:
         r = self.rng
         x = r.random()
         if x < 0.16:
-            return (r.choice(['named', 'named', 'namedlist']), r.choice(NAMES), self.atomize(self.term(depth, later)))
+            return (r.choice(['named', 'named', 'namedlist']), r.choice(NAMES_WIDE if self.wide else NAMES),
+                    self.atomize(self.term(depth, later)))
         if x < 0.22:
             return (r.choice(['override', 'override', 'overridelist']), self.atomize(self.term(depth, later)))
         return self.term(depth, later)
 
     def sequence(self, depth, later):
-        n = self.rng.choice([1, 1, 2, 2, 3])
+        n = self.rng.choice([1, 2, 3, 4, 5, 6, 8] if self.wide else [1, 1, 2, 2, 3])
         items = [self.element(depth, later) for _ in range(n)]
         if len(items) == 1:
             return items[0]
         return ('seq', items)
 
     def expre(self, depth, later):
-        if self.rng.random() < 0.25:
-            n = self.rng.choice([2, 2, 3])
+        if self.rng.random() < (0.35 if self.wide else 0.25):
+            n = self.rng.choice([2, 3, 4, 5] if self.wide else [2, 2, 3])
             return ('choice', [self.sequence(depth, later) for _ in range(n)])
         return self.sequence(depth, later)
 
@@ -252,7 +271,7 @@ class Gen:
         for i in range(nrules - 1, -1, -1):
             later = names[i + 1:]
             self.incl_ok = i > 0      # an include must name a rule that is defined earlier in the text
-            exp = self.expre(r.choice([0, 1, 1, 2, 2]), later)
+            exp = self.expre(r.choice([1, 2, 2, 3] if self.wide else [0, 1, 1, 2, 2]), later)
             if i == 0 and r.random() < 0.7:
                 exp = ('seq', [self.atomize(exp), ('eof',)]) if exp[0] != 'seq' else ('seq', exp[1] + [('eof',)])
             rule = {'name': names[i], 'decorators': [], 'params': [], 'kwparams': [], 'base': None, 'exp': exp,
@@ -538,12 +557,17 @@ def build_grammar(spec):
 # ---------------------------------------------------------------------------------------------------
 # sample sentences
 
-PAT_SAMPLES = dict(PATTERNS_CLEAN + PATTERNS_RISKY)
+PAT_SAMPLES = dict(PATTERNS_CLEAN + PATTERNS_RISKY + PATTERNS_WIDE)
 
 
-def sentence(e, rules, rng, depth=0) -> str:
+def sentence(e, rules, rng, depth=0, rich=False) -> str:
+    """a sentence of e.  rich: every optional part is taken and every repetition runs at least twice, so that the
+    text holds separators / repeated items (what tells a join from a gather, a closure from a group, ...)"""
     k = e[0]
     sp = rng.choice([' ', ' ', ' ', '', '  '])
+
+    def sub(x, d=depth):
+        return sentence(x, rules, rng, d, rich)
 
     def cat(parts):
         return sp.join(p for p in parts)
@@ -555,7 +579,9 @@ def sentence(e, rules, rng, depth=0) -> str:
         return rng.choice(META_SAMPLE[e[1]])
     if k in ('call', 'include'):
         r = rules.get(e[1])
-        return sentence(r['exp'], rules, rng, depth + 1) if r and depth < 8 else ''
+        if not r or depth >= 8:
+            return ''
+        return sentence(r['exp'], rules, rng, depth + 1, rich and depth < 2)
     if k == 'dot':
         return rng.choice('x9+')
     if k == 'eol':
@@ -569,33 +595,33 @@ def sentence(e, rules, rng, depth=0) -> str:
         for i, x in enumerate(e[1]):
             if x[0] == 'la' and i + 1 < len(e[1]):
                 continue
-            parts.append(sentence(x, rules, rng, depth))
+            parts.append(sub(x))
         return cat(parts)
     if k == 'choice':
-        return sentence(rng.choice(e[1]), rules, rng, depth)
+        return sub(rng.choice(e[1]))
     if k in ('group', 'skipgroup', 'override', 'overridelist'):
-        return sentence(e[1], rules, rng, depth)
+        return sub(e[1])
     if k in NAMED:
-        return sentence(e[2], rules, rng, depth)
+        return sub(e[2])
     if k == 'opt':
-        return sentence(e[1], rules, rng, depth) if rng.random() < 0.6 else ''
+        return sub(e[1]) if rich or rng.random() < 0.6 else ''
     if k in ('clo', 'pclo'):
-        n = rng.choice([0, 1, 2, 3]) if k == 'clo' else rng.choice([1, 2, 3])
-        return cat([sentence(e[1], rules, rng, depth) for _ in range(n)])
+        n = rng.choice([2, 3]) if rich else rng.choice([0, 1, 2, 3]) if k == 'clo' else rng.choice([1, 2, 3])
+        return cat([sub(e[1]) for _ in range(n)])
     if k == 'skipto':
-        return cat([rng.choice(['', 'zz', '1 2', '?']), sentence(e[1], rules, rng, depth)])
+        return cat([rng.choice(['', 'zz', '1 2', '?']), sub(e[1])])
     if k in JOINS:
-        n = rng.choice([0, 1, 2, 3]) if k in ('join', 'gather') else rng.choice([1, 2, 3])
+        n = rng.choice([2, 3]) if rich else rng.choice([0, 1, 2, 3]) if k in ('join', 'gather') else rng.choice([1, 2, 3])
         parts = []
         for i in range(n):
             if i:
-                parts.append(sentence(e[1], rules, rng, depth))
-            parts.append(sentence(e[2], rules, rng, depth))
+                parts.append(sub(e[1]))
+            parts.append(sub(e[2]))
         return cat(parts)
     return ''
 
 
-def sample_inputs(spec, rng, n=4):
+def sample_inputs(spec, rng, n=4, rich=0):
     rules = {r['name']: r for r in spec['rules']}
     start = spec['rules'][0]
     out = ['']
@@ -608,6 +634,8 @@ def sample_inputs(spec, rng, n=4):
             i = rng.randrange(len(s))
             out.append(s[:i] + s[i + 1:])
             out.append(s[:i] + rng.choice(['x', ' ', '9', '\n']) + s[i:])
+    for _ in range(rich):
+        out.append(sentence(start['exp'], rules, rng, rich=True))
     seen = []
     for s in out:
         if s not in seen:
@@ -676,6 +704,34 @@ def ulen(s: str) -> int:
     return sum(1 + int(unicodedata.east_asian_width(c) in ('W', 'F')) for c in s)
 
 
+def shape(node):
+    """constructor tree of a model node: (class name [+ the name it binds / calls], children).  Two spellings of
+    the same parser that the printers may legitimately exchange are identified: Fail prints as `!()` and the
+    pattern `.` prints as the Dot symbol `/./`."""
+    t = type(node).__name__
+    if t == 'Fail':
+        return ('NegativeLookahead', (('Void', ()),))
+    if t == 'Pattern' and getattr(node, 'pattern', None) == '.':
+        return ('Dot', ())
+    if t in ('Named', 'NamedList', 'Call', 'RuleInclude', 'Rule', 'BasedRule'):
+        t += ':' + str(getattr(node, 'name', ''))
+    return (t, tuple(shape(c) for c in node.children()))
+
+
+def shape_diff(a, b):
+    """first place (pre-order) where two shapes differ: 'X->Y' or None"""
+    if a[0] != b[0]:
+        return f'{a[0].split(":")[0]}->{b[0].split(":")[0]}' if a[0].split(':')[0] != b[0].split(':')[0] \
+            else f'{a[0].split(":")[0]}:name'
+    if len(a[1]) != len(b[1]):
+        return f'{a[0].split(":")[0]}:arity'
+    for x, y in zip(a[1], b[1]):
+        d = shape_diff(x, y)
+        if d:
+            return d
+    return None
+
+
 def check_model(m, inputs, compile_fn):
     """first failure of the property on model m: (kind, detail) or None"""
     try:
@@ -720,6 +776,15 @@ def check_model(m, inputs, compile_fn):
             break      # a hang of the engine itself (e.g. a whitespace pattern that matches empty) is not C13's
         if o1 != o2:
             return ('parse-differs', f'{o1[0]}->{o2[0]}')
+    # "the same parser": the recompiled model is built from the same constructors in the same places (a sampled
+    # input may miss a difference, e.g. a gather that came back as a join only shows on a text with a separator)
+    for r1, r2 in zip(m.rules, m2.rules):
+        try:
+            d = shape_diff(shape(r1), shape(r2))
+        except Exception as e:
+            return ('structure-differs', type(e).__name__)
+        if d:
+            return ('structure-differs', d)
     return None
 
 
@@ -1279,6 +1344,152 @@ def sweep_atoms(chk: Check, prober: Prober):
                     prober.report(chk, pf, og, ms2, ins)
 
 
+# ---------------------------------------------------------------------------------------------------
+# layout family: every printer with a one-line and a multi-line branch is driven into the multi-line one
+
+def wide_leaf(rng, named=True):
+    x = rng.random()
+    if x < 0.45:
+        e = ('tok', rng.choice(TOKENS_WIDE + ['a', '+', '=', '(', ')']))
+    else:
+        e = ('pat', rng.choice(PATTERNS_WIDE + PATTERNS_CLEAN[:3])[0])
+    if named and rng.random() < 0.4:
+        e = (rng.choice(['named', 'named', 'namedlist']), rng.choice(NAMES_WIDE), e)
+    return e
+
+
+def est(e) -> int:
+    """rough one-line width of an expression in TatSu text (only used to steer the generator past the printers'
+    wrapping thresholds; the oracle never depends on it)"""
+    try:
+        return len(src_exp(e))
+    except NotExpressible:
+        return 0
+
+
+def wide_seq(rng, lo, hi):
+    """a sequence of non-nullable leaves whose one-line form is between lo and hi columns wide"""
+    items = [('tok', rng.choice(['a', '+', 'begin']))]
+    while est(('seq', items)) < lo:
+        x = wide_leaf(rng)
+        if est(('seq', items + [x])) > hi:
+            x = ('tok', rng.choice(['a', 'b', '+']))
+        items.append(x)
+    return ('seq', items)
+
+
+def wide_choice(rng, lo, hi):
+    opts = []
+    while not opts or est(('choice', opts)) < lo:
+        n = rng.choice([1, 1, 2, 3])
+        o = [wide_leaf(rng) for _ in range(n)]
+        o = o[0] if n == 1 else ('seq', o)
+        if opts and est(('choice', opts + [o])) > hi:
+            o = ('tok', rng.choice(['a', 'b', '+']))
+        opts.append(o)
+    if len(opts) < 2:
+        opts.append(('tok', 'b'))
+    return ('choice', opts)
+
+
+def layout_bodies(rng):
+    """(label, expression) - expressions that the printers lay out over several lines, for each of the reasons they
+    have (Sequence longer than the line, Choice longer than its budget, an element that is itself wrapped), and
+    one-line controls just below the thresholds"""
+    out = [
+        ('seq>72', wide_seq(rng, 74, 130)),
+        ('seq~72', wide_seq(rng, 66, 73)),
+        ('choice>43', wide_choice(rng, 46, 70)),
+        ('choice>72', wide_choice(rng, 74, 120)),
+        ('choice~43', wide_choice(rng, 38, 44)),
+        ('short-choice-of-wrapped', ('choice', [('tok', 'a'), ('group', wide_seq(rng, 74, 100))])),
+        ('short-seq-of-wrapped', ('seq', [('tok', 'a'), rng.choice([
+            ('opt', wide_choice(rng, 46, 70)), ('clo', wide_seq(rng, 74, 100)), ('group', wide_choice(rng, 46, 70)),
+            ('gather', ('tok', ','), wide_seq(rng, 74, 100)), ('named', 'val', ('group', wide_choice(rng, 46, 70)))])])),
+    ]
+    return out
+
+
+def layout_specs(rng):
+    """(key, spec): every container kind around every kind of wrapped body, in a two-rule grammar"""
+    g = Gen(rng, risky=False, prog=False)
+    seps = [('tok', ','), ('tok', ';'), ('pat', r'\s*;'), ('tok', 'otherwise')]
+    for label, body in layout_bodies(rng):
+        boxed = g.atomize(body)
+        conts = [('rule', body), ('group', ('group', body)), ('skipgroup', ('seq', [('skipgroup', body), ('tok', 'a')])),
+                 ('opt', ('seq', [('opt', body), ('tok', ';')])),
+                 ('clo', ('clo', body)), ('pclo', ('pclo', body)),
+                 ('la', ('seq', [('la', boxed), boxed])), ('nla', ('seq', [('nla', boxed), ('pat', r'\w+')])),
+                 ('skipto', ('skipto', boxed)), ('override', ('override', boxed)),
+                 ('overridelist', ('seq', [('overridelist', boxed), ('overridelist', ('tok', 'a'))])),
+                 ('named', ('named', rng.choice(NAMES_WIDE), boxed)),
+                 ('namedlist', ('namedlist', rng.choice(NAMES_WIDE), boxed)),
+                 ('choice-option', ('choice', [('tok', 'b'), body] if body[0] != 'choice' else [('tok', 'b')] + body[1])),
+                 ('seq-element', ('seq', [('tok', 'b'), boxed, ('tok', 'b')]))]
+        for k in JOINS:
+            conts.append((k, (k, rng.choice(seps), body)))
+        # the separator wraps instead of (or as well as) the body
+        k = rng.choice(sorted(JOINS))
+        conts.append((k + '/sep', (k, boxed if boxed[0] == 'group' else ('group', boxed), ('tok', 'a'))))
+        for cname, exp in conts:
+            spec = mini(exp)
+            if rng.random() < 0.3:
+                spec = dict(spec, rules=[spec['rules'][0], dict(spec['rules'][1], params=['Node'], kwparams=[('k', 'v')])])
+            yield f'{cname}({label})', spec
+
+
+def wrapped(spec, origin) -> bool:
+    """does the printer lay a rule of this model out over several lines?  (coverage accounting only)"""
+    try:
+        m = obtain(spec, origin)
+        return any(len(r.pretty().strip().splitlines()) > 1 + len(r.decorators or []) for r in m.rules)
+    except Exception:
+        return False
+
+
+def run_layout(chk: Check, prober: Prober):
+    rng = chk.rng
+    origins = ('text', 'prog', 'json', 'progjson')
+    nbad = 0
+    reps = 1 if chk.quick else 3
+    i = 0
+    for _ in range(reps):
+        for key, spec in layout_specs(rng):
+            i += 1
+            inputs = sample_inputs(spec, rng, 3, rich=2)
+            for og in ([origins[i % 2]] if chk.quick else origins):
+                f = failure(spec, og, inputs)
+                chk.count(f'layout.{og}.' + ('ok' if f is None else f[0] if f[0] != 'skip' else 'skip:' + f[1]))
+                chk.count('layout.wrapped' if wrapped(spec, og) else 'layout.one-line')
+                chk.case(f'layout:{og}:' + json.dumps(spec, sort_keys=True, default=str),
+                         nontrivial=(f is None or f[0] != 'skip'))
+                if f is None or f[0] == 'skip':
+                    continue
+                nbad += 1
+                prober.explain(spec, og, inputs, f)
+    # random grammars from the wide pools
+    n = 24 if chk.quick else 120
+    for it in range(n):
+        prog = it % 3 == 2
+        spec = Gen(rng, risky=False, prog=prog, wide=True).grammar()
+        if not spec_ok(spec):
+            chk.count('layout.generator-invalid')
+            continue
+        inputs = sample_inputs(spec, rng, 3 if chk.quick else 5, rich=2)
+        ogs = ['prog', 'progjson'] if prog else ['text', 'json']
+        for og in ([ogs[(it // 3) % 2]] if chk.quick else ogs):
+            f = failure(spec, og, inputs)
+            chk.count(f'layout.{og}.' + ('ok' if f is None else f[0] if f[0] != 'skip' else 'skip:' + f[1]))
+            chk.count('layout.wrapped' if wrapped(spec, og) else 'layout.one-line')
+            chk.case(f'layout:{og}:' + json.dumps(spec, sort_keys=True, default=str),
+                     nontrivial=(f is None or f[0] != 'skip'))
+            if f is None or f[0] == 'skip':
+                continue
+            nbad += 1
+            prober.explain(spec, og, inputs, f)
+    chk.sample({'layout grammars': i + n, 'failing (incl. known)': nbad})
+
+
 def run_oracle(chk: Check):
     rng = chk.rng
     n = 90 if chk.quick else 300
@@ -1294,7 +1505,7 @@ def run_oracle(chk: Check):
         if not spec_ok(spec):
             chk.count('oracle.generator-invalid')
             continue
-        inputs = sample_inputs(spec, rng, 3 if chk.quick else 5)
+        inputs = sample_inputs(spec, rng, 3 if chk.quick else 5, rich=1)
         origins = ['prog', 'progjson'] if prog else ['text', 'json']
         origin = origins[(it // 3) % 2] if chk.quick else None
         for og in ([origin] if origin else origins):
@@ -1308,6 +1519,7 @@ def run_oracle(chk: Check):
                 continue
             nbad += 1
             prober.explain(spec, og, inputs, f)
+    run_layout(chk, prober)
     chk.obligation('O1:pretty() recompiles, is a fixpoint, parses equally, keeps headers; railroads equal width',
                    'oracle', not any(v['replay'].get('oracle') == 'pretty round trip' for v in chk.violations))
     chk.sample({'grammars': n, 'failing (incl. known)': nbad})
